@@ -433,18 +433,58 @@ def currently_exiting_context(frame: types.FrameType) -> Optional[ExitingContext
             if not backtrack_over_load_none():
                 return None
         # offs is now the instruction right before the first LOAD_CONST.
-        # We expect this to be the last instruction that is covered
-        # by the exception handler block that unwinds to call this context's
-        # __exit__ in the exception case. Possible exceptions to that rule:
+        # The exit sequence is not itself covered by the handler of the
+        # 'with' block it exits, but everything that can transfer control
+        # to it is: the last instruction of the block's body (falling off
+        # the bottom) or a jump out of the body (some compilations of
+        # break, continue, return, or of a body ending in try/if). Between
+        # them and the LOAD_CONSTs there may be uncovered instructions:
         # - sometimes there's a SWAP before the LOAD_CONSTs
         # - if the with stmt has no body, there might be a NOP to attach
         #   line number information to
-        # Neither of these are covered by the exception handler block.
-        for _, end, target, *_ in _parse_exception_table(frame.f_code):
-            if end == offs or (
-                end == offs - 2 and code[offs] in (op["SWAP"], op["NOP"])
-            ):
-                return ExitingContext(is_async=is_async, cleanup_offset=target)
+        # So find the predecessors of the exit sequence and ask the
+        # exception table which 'with' handler is innermost around them.
+        seq_end = offs + 2
+        while offs and code[offs] in (op["SWAP"], op["NOP"]):
+            offs -= 2
+        seq_start = offs + 2
+        table = list(_parse_exception_table(frame.f_code))
+
+        def innermost_with_handler(at: int) -> Optional[int]:
+            for _ in range(len(table) + 1):
+                for start, end, target, *_ in table:
+                    if start <= at <= end:
+                        break
+                else:
+                    return None
+                if (
+                    code[target] == op["PUSH_EXC_INFO"]
+                    and code[target + 2] == op["WITH_EXCEPT_START"]
+                ):
+                    return target
+                at = target
+            return None  # pragma: no cover
+
+        predecessors = []
+        if code[offs] not in (
+            op["RETURN_VALUE"],
+            op["RETURN_CONST"] if "RETURN_CONST" in op else -1,
+            op["RAISE_VARARGS"],
+            op["RERAISE"],
+            op["JUMP_FORWARD"],
+            op["JUMP_BACKWARD"],
+            op["JUMP_BACKWARD_NO_INTERRUPT"],
+        ):
+            predecessors.append(offs)
+        for insn in dis.get_instructions(frame.f_code):
+            if (
+                insn.opcode in dis.hasjrel or insn.opcode in dis.hasjabs
+            ) and seq_start <= insn.argval <= seq_end:
+                predecessors.append(insn.offset)
+        for pred in predecessors:
+            handler = innermost_with_handler(pred)
+            if handler is not None:
+                return ExitingContext(is_async=is_async, cleanup_offset=handler)
         warnings.warn(
             f"Surprise during analysis of {frame.f_code!r}: couldn't find an "
             f"exception table entry ending at {offs} just before the call to "
